@@ -19,7 +19,11 @@ package main
 import (
 	"fmt"
 	"os"
+	"os/exec"
+	"runtime"
 	"strconv"
+	"strings"
+	"sync"
 
 	"istio.io/istio/pilot/pkg/features"
 	"istio.io/istio/pkg/security"
@@ -52,9 +56,13 @@ func main() {
 			os.Exit(2)
 		}
 	case "exec":
-		execOps(os.Args[2], os.Args[3], os.Args[4])
+		if !fanOut("exec", os.Args[2], os.Args[3], os.Args[4]) {
+			execOps(os.Args[2], os.Args[3], os.Args[4])
+		}
 	case "oracle":
-		oracle(os.Args[2], os.Args[3], os.Args[4])
+		if !fanOut("oracle", os.Args[2], os.Args[3], os.Args[4]) {
+			oracle(os.Args[2], os.Args[3], os.Args[4])
+		}
 	default:
 		os.Exit(2)
 	}
@@ -114,4 +122,80 @@ func pinFeatures() {
 	features.EnableXDSIdentityCheck = true
 	features.ScopeGatewayToNamespace = false
 	security.AuthPlaintext = false
+}
+
+// fanOut runs the slow streams (sds, stream: one fake Kubernetes world / one real xDS stream per case or op) as
+// parallel child processes over contiguous chunks of cases and concatenates their outputs in order.  Cases are
+// independent (every `case` line resets both sides), so the result is byte-identical to a sequential run; feature
+// flags are process-global, which is why processes and not goroutines are used.  Returns false when the work
+// should be done in-process (small input, a child, or VERIF_C11_PAR=1).
+func fanOut(sub, stream, in, outp string) bool {
+	if (stream != "sds" && stream != "stream") || os.Getenv("VERIF_C11_CHILD") != "" {
+		return false
+	}
+	par := runtime.NumCPU()
+	if v, err := strconv.Atoi(os.Getenv("VERIF_C11_PAR")); err == nil && v > 0 {
+		par = v
+	}
+	if par > 8 {
+		par = 8
+	}
+	data, err := os.ReadFile(in)
+	if err != nil {
+		return false
+	}
+	lines := strings.SplitAfter(string(data), "\n")
+	var starts []int
+	for i, l := range lines {
+		if strings.HasPrefix(l, "case") {
+			starts = append(starts, i)
+		}
+	}
+	if par < 2 || len(starts) < 4*par || starts[0] != 0 {
+		return false
+	}
+	per := (len(starts) + par - 1) / par
+	type chunk struct{ in, out string }
+	var chunks []chunk
+	for k := 0; k*per < len(starts); k++ {
+		lo := starts[k*per]
+		hi := len(lines)
+		if (k+1)*per < len(starts) {
+			hi = starts[(k+1)*per]
+		}
+		c := chunk{in: fmt.Sprintf("%s.part%d", in, k), out: fmt.Sprintf("%s.part%d", outp, k)}
+		if os.WriteFile(c.in, []byte(strings.Join(lines[lo:hi], "")), 0o644) != nil {
+			return false
+		}
+		chunks = append(chunks, c)
+	}
+	errs := make([]error, len(chunks))
+	var wg sync.WaitGroup
+	for i, c := range chunks {
+		wg.Add(1)
+		go func(i int, c chunk) {
+			defer wg.Done()
+			cmd := exec.Command(os.Args[0], sub, stream, c.in, c.out)
+			cmd.Env = append(os.Environ(), "VERIF_C11_CHILD=1")
+			cmd.Stderr = os.Stderr
+			errs[i] = cmd.Run()
+		}(i, c)
+	}
+	wg.Wait()
+	out, err := os.Create(outp)
+	if err != nil {
+		return false
+	}
+	defer out.Close()
+	for i, c := range chunks {
+		b, rerr := os.ReadFile(c.out)
+		if errs[i] != nil || rerr != nil {
+			fmt.Fprintln(os.Stderr, "c11: child", i, "failed:", errs[i], rerr)
+			os.Exit(1)
+		}
+		out.Write(b)
+		os.Remove(c.in)
+		os.Remove(c.out)
+	}
+	return true
 }
